@@ -20,6 +20,7 @@ import (
 )
 
 func init() {
+	zzverif.Register("VerifC19Overlap", VerifC19Overlap)
 	zzverif.Register("VerifC19Effect", VerifC19Effect)
 	zzverif.Register("VerifC19EffectSeq", VerifC19EffectSeq)
 }
@@ -161,6 +162,11 @@ func VerifC19Effect() {
 		f.init(map[string]any{"hledger": payload})
 	} else {
 		f.init(nil)
+		if zzverif.Choice("warm", 2) == 1 {
+			// an analysis under the previous settings has already run (include cache, workspace
+			// caches and per-document trees are warm) when the new configuration arrives
+			_ = f.diagnostics()
+		}
 		f.refresh(payload)
 	}
 	c.check(f)
@@ -186,4 +192,68 @@ func VerifC19EffectSeq() {
 	cs[i].check(f)
 	cs[j].check(f)
 	zzverif.Reach("C19.effectseq.end")
+}
+
+// c19NestClient answers the first workspace/configuration pull only after a SECOND
+// configuration change has been pulled, answered and applied: the schedule "pull A is sent,
+// pull B is sent, answered and applied, and only then A is answered". Tasks run atomically
+// under the engine, so the overlap is realised by running pull B inside the client's answer
+// to pull A (natively the same nesting is an ordinary call).
+type c19NestClient struct {
+	zzClient
+	f        *c19Fx
+	first    any
+	second   any
+	depth    int
+	answered int
+}
+
+func (c *c19NestClient) Configuration(ctx context.Context, p *protocol.ConfigurationParams) ([]any, error) {
+	c.depth++
+	defer func() { c.depth--; c.answered++ }()
+	if c.depth == 1 {
+		// pull B happens while A is in flight
+		_ = c.f.s.DidChangeConfiguration(ctx, &protocol.DidChangeConfigurationParams{})
+		if zzverif.Engine() {
+			for zzverif.PendingTasks() > 0 {
+				zzverif.RunTask(0)
+			}
+		} else {
+			c.f.s.refreshConfiguration(ctx)
+		}
+		return []any{c.first}, nil
+	}
+	return []any{c.second}, nil
+}
+
+// VerifC19Overlap: two configuration pulls overlap; each sets a different key. Afterwards
+// both keys must be in force (an entry absent from a payload leaves the previous value
+// unchanged - also when "previous" was written while the pull was in flight).
+func VerifC19Overlap() {
+	f := c19NewFx()
+	cs := c19Cases()
+	i := zzverif.Choice("first", len(cs))
+	j := zzverif.Choice("second", len(cs))
+	zzverif.Assume(i != j)
+	zzverif.Assume(!(cs[i].name == "diagnostics" && cs[i].section == "features") && !(cs[j].name == "diagnostics" && cs[j].section == "features"))
+	zzverif.Assume(!(cs[i].name == "maxFileSizeBytes" && cs[j].name == "maxIncludeDepth") && !(cs[j].name == "maxFileSizeBytes" && cs[i].name == "maxIncludeDepth"))
+	nc := &c19NestClient{f: f,
+		first:  map[string]any{cs[i].section: map[string]any{cs[i].name: cs[i].value}},
+		second: map[string]any{cs[j].section: map[string]any{cs[j].name: cs[j].value}}}
+	f.s.SetClient(nc)
+	f.init(nil)
+	_ = f.s.DidChangeConfiguration(f.ctx, &protocol.DidChangeConfigurationParams{})
+	if zzverif.Engine() {
+		for zzverif.PendingTasks() > 0 {
+			zzverif.RunTask(0)
+		}
+	} else {
+		f.s.refreshConfiguration(f.ctx)
+	}
+	zzverif.Assert(nc.answered == 2, "harness: both configuration pulls were answered")
+	// the checks publish through the ordinary client stub
+	f.s.SetClient(f.cl)
+	cs[i].check(f)
+	cs[j].check(f)
+	zzverif.Reach("C19.overlap.end")
 }
